@@ -55,7 +55,7 @@ def gen_cases(rng, tier):
     model = spec.gen_eam_model(rng, "fs", groute, target=target, unique_density=unique, grids=grids,
                                nspecies=rng.choice([1, 2, 2, 3, 3, 4]), with_forms=not unique)
     if groute == "api":
-      model["api_containers"] = rng.choice([None, None, "tuple", "generator", "map"])
+      model["api_containers"] = rng.choice([None, None, "tuple", "generator", "map", "amend_after_write"])
     if not unique and i % 4 == 1 and len(model["density"]) >= 2:
       # two A->B definitions that read the same once the blanks between their tokens are removed ('1 25' / '12 5')
       a, b, c = rng.randint(1, 9), rng.randint(1, 9), rng.randint(1, 9)
@@ -68,6 +68,10 @@ def gen_cases(rng, tier):
       cut = float(model["tab"]["cutoff"])
       cluster = [[rng.choice(sp)] + [round(rng.uniform(0, cut * 0.6), 3) for _ in range(3)] for _ in range(na)]
     cases.append({"route": route, "model": model, "style": rng.randrange(1 << 30), "cluster": cluster})
+  # row-count sweep (everything small, m*10^k, 2^k, multiples of 5000, each with neighbours): structure and end values
+  szs = spec.edge_sizes(tier, multiple_of=1, lo=2)
+  for c0 in range(0, len(szs), 12):
+    cases.append({"kind": "sizes", "sizes": szs[c0:c0 + 12], "route": "api_legacy", "model": None, "style": 0})
   return cases
 
 
@@ -89,7 +93,22 @@ def produce(ctx, model, route, rng):
     nr, nrho = int(t["nr"]), int(t["nrho"])
     fp = io.StringIO()
     fn = ap.writeSetFLFinnisSinclair if model["target"] == "setfl_fs" else ap.writeTABEAMFinnisSinclair
-    fn(nrho, float(t["cutoff_rho"]) / (nrho - 1), nr, float(t["cutoff"]) / (nr - 1), eams, pots, fp)
+    # optional keyword arguments of the legacy writers: an explicit header cutoff (inside or outside the tabulated range)
+    # and comment lines.  They belong to the header; no tabulated value may depend on them.
+    kw = {}
+    c_ = rng.random()
+    span = float(t["cutoff"])
+    if c_ < 0.25:
+      kw["cutoff"] = round(span * rng.choice([0.37, 0.5, 0.81]), 6)
+    elif c_ < 0.35:
+      kw["cutoff"] = round(span * 1.5, 6)
+    if rng.random() < 0.3:
+      kw["comments"] = ["first comment", "second", "third line"]
+    for k_ in kw:
+      ctx.cls("legacy_keyword:" + k_)
+    if model["target"] != "setfl_fs":
+      kw = {"title": "a title"} if "comments" in kw else {}
+    fn(nrho, float(t["cutoff_rho"]) / (nrho - 1), nr, float(t["cutoff"]) / (nr - 1), eams, pots, fp, **kw)
     out = fp.getvalue()
   else:
     out = routes.write_tab(routes.read_config(emit.model_text(model, emit.Style(rng))))
@@ -145,6 +164,15 @@ def extract_slots(ctx, model, data, order, nr):
 
 
 def run_case(case, ctx):
+  if case.get("kind") == "sizes":
+    import sizesweep
+    ctx.cls("kind:row_count_sweep")
+    for n_ in case["sizes"]:
+      ctx.cls(sizesweep.size_class(n_))
+      if not (sizesweep.check_setfl(ctx, n_, fs=True) and sizesweep.check_tabeam(ctx, n_, fs=True)):
+        return
+    ctx.nontrivial(True)
+    return
   model = case["model"]
   route = case["route"]
   potable = not route.startswith("api")
